@@ -224,7 +224,7 @@ def build_axm():
     sp = os.path.join(ROOT, "model/_build/stamp")
     if os.path.exists(AXM) and os.path.exists(sp) and open(sp).read() == stamp:
         return True, "cached"
-    ok, mout = coq_make(["theories/Model/Machine.vo", "theories/Spec/RegFile.vo"])
+    ok, mout = coq_make(["theories/Model/Machine.vo", "theories/Spec/RegFile.vo", "theories/Spec/CodeSem.vo"])
     if not ok:
         return False, "model does not compile: " + coq_error_summary(mout)
     rc, out = sh([os.path.join(ROOT, "model/build.sh")], timeout=1200)
@@ -266,7 +266,7 @@ def parse_out(path, drop_x=True):
     return res
 
 
-def run_pair(axh, lines, dbg, ovf, tag, mode="model"):
+def run_pair(axh, lines, dbg, ovf, tag, mode="model", keep_x=False):
     """run the same cases through the implementation and the extracted model.
     returns (impl_results, model_results) as dicts id -> lines"""
     work = os.path.join(BUILD, "corr-" + tag)
@@ -290,7 +290,7 @@ def run_pair(axh, lines, dbg, ovf, tag, mode="model"):
     for k in range(len(chunks)):
         if rcs[k][0] != 0 or rcs[k][1] != 0:
             raise RuntimeError("runner failed on chunk %d: %s" % (k, rcs[k]))
-        impl.update(parse_out(os.path.join(work, "o%d.txt" % k)))
+        impl.update(parse_out(os.path.join(work, "o%d.txt" % k), drop_x=not keep_x))
         model.update(parse_out(os.path.join(work, "m%d.txt" % k)))
     shutil.rmtree(work, ignore_errors=True)
     return impl, model
